@@ -621,12 +621,12 @@ theorem providesReturns_prov (ti : TyInfo) (ch : Chain) (initPos : Option Nat) (
     · rw [get_default_of_ge _ j (by simpa using hj)]; rfl
   have hd1 := foldl_noRet ti initPos (List.range ch.length) (ch.map resetDeps, ([] : IMap)) hd0
   have sfd : SF ch ((List.range ch.length).foldl (downStep ti initPos) (ch.map resetDeps, ([] : IMap))).1 :=
-    SF_trans (SF_map ch resetDeps (fun f => ⟨rfl, rfl, rfl⟩))
+    SF_trans (SF_map ch resetDeps (fun f => ⟨rfl, rfl, rfl, rfl⟩))
       (foldl_SF_pair (downStep ti initPos) (fun acc i => downStep_SF ti initPos acc i) (List.range ch.length) _)
   have u0 : UI ch.length ch.length (fun j => (ch.get j).c.ret) (fun j => (ch.get j).c.recv) ([] : IMap)
       ((List.range ch.length).foldl (downStep ti initPos) (ch.map resetDeps, ([] : IMap))).1 :=
     { len := sfd.1
-      hc := fun j => by rw [(sfd.2 j).2.2]; exact ⟨rfl, rfl⟩
+      hc := fun j => by rw [(sfd.2 j).2.2.1]; exact ⟨rfl, rfl⟩
       a := fun d e q he _ => by rw [hd1 d] at he; cases he
       b := fun d e q he _ _ => by rw [hd1 d] at he; cases he
       c := fun e he => by cases he
